@@ -68,7 +68,7 @@ Ltac step_cases H :=
   lazymatch type of H with
   | step _ _ ?s ?a = Some _ =>
       destruct s; destruct a; cbn in H;
-      unfold job_step, wake_step, poll_step, core_locked, core_gone, pollable, probe_pollable, outside_poll, desync_alive, enqueue, is_live in H; cbn in H;
+      unfold job_step, wake_step, poll_step, core_locked, core_gone, pollable, probe_pollable, outside_poll, desync_alive, drained, enqueue, is_live in H; cbn in H;
       step_split H;
       try (injection H as <-)
   end.
